@@ -106,4 +106,21 @@ SlotsInv == SlotsDisjoint \/ (~Strict /\ PrintT(<<"REJECT", Funcs[f].fid, 0, "us
 (* consec = <<node, <<id1, id2, ...>>>> for every operand group that query_rw_info marks with a consecutive lead  *)
 ConsecutiveOK == \A c \in SetOf(Funcs[f].consec) : \A k \in 1..(Len(c[2]) - 1) : c[2][k + 1] = (c[2][k] + 1) % 32
 ConsecutiveInv == ConsecutiveOK \/ (~Strict /\ PrintT(<<"REJECT", Funcs[f].fid, 0, "register list not consecutive">>))
+
+(* The allocator may change the mnemonic of an ORIGINAL instruction only into its documented twin:                      *)
+(*   VEX -> EVEX (a register 16..31 was assigned; Intel SDM: same operation on 32/64-bit elements),                      *)
+(*   vround* -> vrndscale* (same immediate semantics for imm8[7:4] = 0), 128-bit lane ops -> their 32x4 EVEX forms,       *)
+(*   and a register->memory substituted GP<-vector/mask move -> plain load of the same width.                            *)
+(* renames = <<before, after>> mnemonic pairs of all original nodes whose mnemonic differs in the final code.            *)
+Twins == { <<"vpand", "vpandd">>, <<"vpand", "vpandq">>, <<"vpandn", "vpandnd">>, <<"vpandn", "vpandnq">>,
+           <<"vpor", "vpord">>, <<"vpor", "vporq">>, <<"vpxor", "vpxord">>, <<"vpxor", "vpxorq">>,
+           <<"vmovdqa", "vmovdqa32">>, <<"vmovdqa", "vmovdqa64">>,
+           <<"vmovdqu", "vmovdqu8">>, <<"vmovdqu", "vmovdqu16">>, <<"vmovdqu", "vmovdqu32">>, <<"vmovdqu", "vmovdqu64">>,
+           <<"vbroadcastf128", "vbroadcastf32x4">>, <<"vbroadcasti128", "vbroadcasti32x4">>, <<"vextractf128", "vextractf32x4">>,
+           <<"vextracti128", "vextracti32x4">>, <<"vinsertf128", "vinsertf32x4">>, <<"vinserti128", "vinserti32x4">>,
+           <<"vroundpd", "vrndscalepd">>, <<"vroundps", "vrndscaleps">>, <<"vroundsd", "vrndscalesd">>, <<"vroundss", "vrndscaless">>,
+           <<"kmovb", "movzx">>, <<"vmovw", "movzx">>, <<"movd", "mov">>, <<"vmovd", "mov">>, <<"kmovd", "mov">>,
+           <<"movq", "mov">>, <<"vmovq", "mov">>, <<"kmovq", "mov">> }
+RenameOK == \A p \in SetOf(Funcs[f].renames) : <<p[1], p[2]>> \in Twins
+RenameInv == RenameOK \/ (~Strict /\ PrintT(<<"REJECT", Funcs[f].fid, 0, "mnemonic changed to something that is not its twin">>))
 =============================================================================
